@@ -49,8 +49,10 @@ Round(e) ==
       vTwice == IF \E i, j \in DOMAIN handed : i < j /\ handed[i] = handed[j] THEN {"C05_sample_delivered_twice"} ELSE {}
       \* every fragment of the lowest sample not yet handed over (nothing holds it back: the reliable reader hands
       \* over in order) has been delivered to the reader, yet it is not handed over
+      \* (e.acked >= sn: the reader has acknowledged everything below it, so it knows the fate of every lower number -
+      \* a late joiner that has not yet been told that the earlier numbers are not for it rightly holds the sample back)
       vAsm == IF missing # {} /\ (LET sn == LMin(missing) IN
-                    sn \in DOMAIN nfr /\ nfr[sn] > 0 /\ sn \in DOMAIN got /\ (1..nfr[sn]) \subseteq got[sn])
+                    sn \in DOMAIN nfr /\ nfr[sn] > 0 /\ sn \in DOMAIN got /\ (1..nfr[sn]) \subseteq got[sn] /\ e.acked >= sn)
                 THEN {"C05_complete_fragment_set_not_assembled"} ELSE {}
       vInc == IF \E i \in DOMAIN handed : handed[i] \in DOMAIN nfr /\ nfr[handed[i]] > 0 /\
                     ~((1..nfr[handed[i]]) \subseteq (IF handed[i] \in DOMAIN got THEN got[handed[i]] ELSE {}))
